@@ -121,7 +121,7 @@ def _callee_body(f, t, caller_def, caller_generic=True):
     return gb
 
 
-def inlined(f, bj, depth=2, _stack=()):
+def inlined(f, bj, depth=2, _stack=(), only_mut=False):
     """body dict with private crate-local helpers inlined (up to `depth` levels)"""
     if depth <= 0:
         return bj
@@ -135,8 +135,10 @@ def inlined(f, bj, depth=2, _stack=()):
         t = blocks[i]['term']
         if t['t'] == 'call' and t.get('target') is not None:
             gb = _callee_body(f, t, bj['def'], bj.get('generic', True))
+            if gb is not None and only_mut and not any(gb['locals'][k]['ty'].startswith(('&mut', '*mut')) for k in range(1, gb['arg_count'] + 1)):
+                gb = None           # a pure helper stays an opaque call (the same expression wherever it is used)
             if gb is not None and gb['def'] not in _stack and gb['arg_count'] == len(t['args']):
-                cb = inlined(f, gb, depth - 1, _stack + (bj['def'],))
+                cb = inlined(f, gb, depth - 1, _stack + (bj['def'],), only_mut)
                 loff = len(locals_)
                 boff = len(blocks)
                 lm = lambda l, loff=loff: l + loff
